@@ -52,7 +52,10 @@ def configs(tier):
     # the fifth configuration: long exchanges (up to 45 messages a side) with
     # a late verbatim replay of early messages (dedup state under load)
     return [{"spake": "real", "reorder_heavy": i % 2 == 1} for i in range(4)] \
-        + [{"spake": "real", "long": True}]
+        + [{"spake": "real", "long": True},
+           # both sides also dilate: dilate-N control messages share the
+           # mailbox (and the reorder buffers) with the numbered phases
+           {"spake": "real", "dilate": True, "reorder_heavy": True}]
 
 
 SWEEP_OPS = (
